@@ -93,18 +93,20 @@ Definition s_sub (a b : term) : term :=
 Definition s_div (a b : term) : term :=
   if is_c b 1 then a
   else if is_c b 0 then TConst 0
+  else if is_c a 0 then TConst 0
   else match shl_one b with
        | Some y => TOp2 SHR y a                    (* DIV(X,SHL(Y,1)) *)
        | None => TOp2 DIV a b
        end.
 
 Definition s_sdiv (a b : term) : term :=
-  if is_c b 1 then a else if is_c b 0 then TConst 0 else TOp2 SDIV a b.
+  if is_c b 1 then a else if is_c b 0 then TConst 0 else if is_c a 0 then TConst 0 else TOp2 SDIV a b.
 
 Definition s_mod (a b : term) : term :=
   if is_c b 1 then TConst 0
   else if is_c b 0 then TConst 0
   else if term_eqb a b then TConst 0
+  else if is_c a 0 then TConst 0
   else TOp2 MOD a b.
 
 Definition s_smod (a b : term) : term :=
@@ -132,7 +134,13 @@ Definition s_eq (a b : term) : term :=
   if term_eqb a b then TConst 1
   else if is_c a 0 then s_iszero b
   else if is_c a 1 && is_boolt b then b
-  else TOp2 EQ a b.
+  else match inner XOR b with
+  | Some (x, y) => if term_eqb a x then s_iszero y else if term_eqb a y then s_iszero x else TOp2 EQ a b
+  | None =>
+  match inner XOR a with
+  | Some (x, y) => if term_eqb b x then s_iszero y else if term_eqb b y then s_iszero x else TOp2 EQ a b
+  | None => TOp2 EQ a b
+  end end.
 
 Definition s_and (a b : term) : term :=
   if is_c a 0 then TConst 0
@@ -252,8 +260,9 @@ Definition same_base (b1 b2 : option term) : bool :=
 Definition disj (n1 : Z) (a1 : term) (n2 : Z) (a2 : term) : bool :=
   let (b1, c1) := split_addr a1 in
   let (b2, c2) := split_addr a2 in
-  same_base b1 b2 && (0 <=? n1) && (0 <=? n2) &&
-  (let d := (c2 - c1) mod W in (n1 <=? d) && (d <=? W - n2)).
+  (n1 =? 0) || (n2 =? 0) ||
+  (same_base b1 b2 && (0 <=? n1) && (0 <=? n2) &&
+   (let d := (c2 - c1) mod W in (n1 <=? d) && (d <=? W - n2))).
 
 Definition keys_distinct (k1 k2 : term) : bool :=
   let (b1, c1) := split_addr k1 in
@@ -294,16 +303,30 @@ Definition s_sload (s k : term) : term :=
   | _ => TSload s' k
   end.
 
+(* stores that a new 32-byte store at the same address / a new store to the same key
+   overwrites completely are dropped from the chain *)
+Fixpoint drop_same (a : term) (m : term) : term :=
+  match m with
+  | MStore m' a' v => if term_eqb a a' then drop_same a m' else MStore (drop_same a m') a' v
+  | MStore8 m' a' v => if term_eqb a a' then drop_same a m' else MStore8 (drop_same a m') a' v
+  | _ => m
+  end.
+Fixpoint drop_same_s (k : term) (s : term) : term :=
+  match s with
+  | SStore s' k' v => if term_eqb k k' then drop_same_s k s' else SStore (drop_same_s k s') k' v
+  | _ => s
+  end.
+
 (* a store that writes back what is already there is dropped *)
 Definition s_mstore (m a v : term) : term :=
   match v with
-  | TMload m' a' => if term_eqb a a' && term_eqb m' (relevant 32 a m) then m else MStore m a v
-  | _ => MStore m a v
+  | TMload m' a' => if term_eqb a a' && term_eqb m' (relevant 32 a m) then m else MStore (drop_same a m) a v
+  | _ => MStore (drop_same a m) a v
   end.
 Definition s_sstore (s k v : term) : term :=
   match v with
-  | TSload s' k' => if term_eqb k k' && term_eqb s' (relevant_s k s) then s else SStore s k v
-  | _ => SStore s k v
+  | TSload s' k' => if term_eqb k k' && term_eqb s' (relevant_s k s) then s else SStore (drop_same_s k s) k v
+  | _ => SStore (drop_same_s k s) k v
   end.
 
 Fixpoint norm (t : term) : term :=
